@@ -21,7 +21,7 @@ from ..reftensor import KEYS21, PAIR_OF_VOIGT
 ID = "C17"
 SHARDS = {"quick": 8, "thorough": 16}
 RULE = ("(phonon) data sets with 1-12 volumes, 1-10 q-points, 3-60 modes, values of either sign up to 1e5, weights >= 0, any nm/na; "
-        "(static) tables with any component subset/order, key spellings c11 / C11 / c_11 / c1123 (4-digit), 1-10 rows, optional "
+        "(static) tables with any component subset/order, key spellings c11 / C11 / c_11 / c1123 (4-digit) / 11 / Cij11 / cij_11 / K11 / el-11, any line introducing the lattice block, 1-10 rows, optional "
         "lattice block, trailing blanks/tabs, rows in decreasing / increasing / shuffled volume order, numbers with or without a decimal "
         "point; (command) nine systems, sufficient subsets, tables in floats or in whole numbers obeying the symmetry, or complete / sufficient tables obeying it only to 1e-3 / 5e-3 GPa (then compared with read_elast_data + apply_symetry_on_elast_data at the precision printed), re-parse of stdout; non-trivial = "
         "np != 3*na or negative values or > 1 q-point; table with upper-case/prefixed/4-digit keys and a lattice block; any command case; "
@@ -108,7 +108,7 @@ def sub_phonon(ctx):
 
 
 # ---------------------------------------------------------------------------------------------------------
-STYLES = ["c", "C", "c_", "C_", "c4", "mixed"]
+STYLES = ["c", "C", "c_", "C_", "c4", "mixed", "", "Cij", "cij_", "K", "el-"]      # any prefix without digits, also none
 
 
 def spell(key, style, j=0):
@@ -131,7 +131,10 @@ def static_cases(draw):
             "header_word": draw(st.sampled_from(["V", "v", "Volume", "V(bohr3)"])), "zero_cols": draw(st.booleans()),
             # rows as tabulated: any volume order; numbers with or without a decimal point
             "vol_order": draw(st.sampled_from(["decreasing", "decreasing", "increasing", "shuffled"])),
-            "numbers": draw(st.sampled_from(["float", "float", "whole"]))}
+            "numbers": draw(st.sampled_from(["float", "float", "whole"])),
+            # the line that introduces the lattice block is free text (the reader skips it)
+            "lat_header": draw(st.sampled_from([" lattice_a lattice_b lattice_c", " lattice_a lattice_b lattice_c", "a b c", "# axis lengths (bohr)",
+                                                "   a(bohr)   b(bohr)   c(bohr)"]))}
 
 
 def write_static(path, c, vols, tab, lat, vref, mass):
@@ -142,7 +145,7 @@ def write_static(path, c, vols, tab, lat, vref, mass):
     for i in range(len(vols)):
         lines.append(num(vols[i]) + "  " + "  ".join(num(x) for x in tab[i]) + t)
     if c["lattice"]:
-        lines.append(" lattice_a lattice_b lattice_c" + t)
+        lines.append(c.get("lat_header", " lattice_a lattice_b lattice_c") + t)
         for i in range(len(vols)):
             lines.append("  ".join(repr(float(x)) for x in lat[i]) + t)
     text = "\n".join(lines) + "\n" + ("\n" if c["blank_end"] else "")
@@ -211,7 +214,8 @@ def static_target(ctx):
         static_oracle(ctx, c)
         ctx.case(c, c["style"] != "c" and c["lattice"], classes=["static", "style-" + c["style"], "lattice" if c["lattice"] else "no-lattice",
                                                                    "zero-columns" if c.get("zero_cols") else "no-zero-columns",
-                                                                   "volumes-" + c.get("vol_order", "decreasing"), "numbers-" + c.get("numbers", "float")])
+                                                                   "volumes-" + c.get("vol_order", "decreasing"), "numbers-" + c.get("numbers", "float"),
+                                                                   "lattice-header-" + ("documented" if "lattice" in c.get("lat_header", "lattice") else "other")])
 
     return body, (static_cases(),)
 
